@@ -77,7 +77,10 @@ class SimLoop(base_events.BaseEventLoop):
         return fut
 
     def _run_executor_job(self):
-        fut, func, args = self.executor_jobs.pop(0)
+        # a pool with several workers may finish its pending jobs in any order
+        n = len(self.executor_jobs)
+        i = self.chooser.draw(n, 'executor_job') if n > 1 else 0
+        fut, func, args = self.executor_jobs.pop(i)
         if fut.cancelled():
             return
         try:
